@@ -179,6 +179,7 @@ package hash
 //@ ensures [negative-size] outputSize < 0 ==> result0 == nil && result1 != nil
 //@ ensures [short-key] outputSize >= 0 && len(key) < 16 ==> result0 == nil && result1 != nil
 //@ ensures [ok] outputSize >= 0 && outputSize <= 268435455 && len(key) >= 16 ==> result1 == nil && typeis(result0, *kmac128) && kmacInv(unbox(result0, *kmac128)) && unbox(result0, *kmac128).outputSize == outputSize && fresh(unbox(result0, *kmac128))
+//@ assumes [configuration] outputSize >= 0 && len(key) >= 16 ==> result0 != nil && result0.osize == outputSize && result0.cfg == kmacCfg(seqid(key), seqid(customizer), outputSize)
 //@ ensures [keyed-state] outputSize >= 0 && len(key) >= 16 ==> unbox(result0, *kmac128).ShakeHash.st == shAbsorb(cshakeNew(seqid("KMAC"), seqid(customizer)), seqid(unbox(result0, *kmac128).initBlock))
 //@ ensures [init-block-is-bytepad-of-encoded-key slow] outputSize >= 0 && len(key) >= 16 ==> unbox(result0, *kmac128).initBlock[2] == bytelen(8*len(key)) && forall(j, 3, 3 + bytelen(8*len(key)), unbox(result0, *kmac128).initBlock[j] == bebyte(8*len(key), 8 - bytelen(8*len(key)) + (j - 3))) && forall(j, 3 + bytelen(8*len(key)), 3 + bytelen(8*len(key)) + len(key), unbox(result0, *kmac128).initBlock[j] == key[j - (3 + bytelen(8*len(key)))]) && forall(j, 3 + bytelen(8*len(key)) + len(key), len(unbox(result0, *kmac128).initBlock), unbox(result0, *kmac128).initBlock[j] == 0) && len(unbox(result0, *kmac128).initBlock) - (3 + bytelen(8*len(key)) + len(key)) < 168
 
@@ -203,3 +204,25 @@ package hash
 //@ requires k != nil
 //@ assigns nothing
 //@ ensures result == k.outputSize
+
+// ---------------------------------------------------------------------------------------------
+// Hashers seen through the Hasher interface: a hasher is a function hout(cfg, input) of its fixed configuration
+// (algorithm, key, customizer, output size) and the input; osize is its output size. These ghost facts are an
+// abstraction that the bodies cannot establish (there is no ghost code): they are `assumes` clauses.
+
+//@ ghost field Hasher.cfg int
+//@ ghost field Hasher.osize int
+
+//@ func (Hasher).Size
+//@ requires self != nil
+//@ assigns nothing
+//@ ensures result == self.osize
+
+//@ func (Hasher).ComputeHash
+//@ requires self != nil
+//@ assigns ghost(self)
+//@ ensures len(result) == self.osize && fresh(result) && seqid(result) == hout(self.cfg, seqid(arg0)) && unchanged(self.cfg) && unchanged(self.osize)
+
+//@ func (Hasher).Algorithm
+//@ requires self != nil
+//@ assigns nothing
